@@ -203,7 +203,8 @@ func buildArtefacts() *artefacts {
 	os.WriteFile(filepath.Join(dir, "ok"), []byte(time.Since(t0).String()), 0o644)
 	fmt.Fprintf(os.Stderr, "vcheck: built artefacts for tree %s in %.1fs\n", hash, time.Since(t0).Seconds())
 
-	// keep at most three cache entries
+	// cache eviction: never remove an entry used within the last three hours (a long run may
+	// still be executing its binary); beyond that keep the four most recent ones
 	ents, _ := os.ReadDir(cacheDir)
 	type ent struct {
 		name string
@@ -220,7 +221,7 @@ func buildArtefacts() *artefacts {
 	}
 	sort.Slice(es, func(i, j int) bool { return es[i].t.After(es[j].t) })
 	for i, e := range es {
-		if i >= 2 {
+		if i >= 4 && time.Since(e.t) > 3*time.Hour {
 			os.RemoveAll(filepath.Join(cacheDir, e.name))
 		}
 	}
